@@ -3,6 +3,52 @@
 use crate::e2;
 use zvcore::evidence::{Check, Tier};
 
+/// Child process: a PULL socket whose recv loop is driven by `block_on` (the main future of a
+/// multi-thread runtime, exactly what `#[tokio::main]` does) while a PUSH peer keeps the connection
+/// saturated. tokio's I/O resources yield cooperatively (wake themselves, return Pending) once the
+/// task budget is used up; outside a worker thread that wake is synchronous. Exit 0 = all messages
+/// received, 3 = the main future never came back (watchdog on a plain OS thread).
+pub fn child_coop(n: usize) -> i32 {
+    use zeromq::prelude::*;
+    let rt = tokio::runtime::Builder::new_multi_thread().worker_threads(2).enable_all().build().expect("rt");
+    std::thread::spawn(|| {
+        std::thread::sleep(std::time::Duration::from_secs(15));
+        println!("WATCHDOG");
+        std::process::exit(3);
+    });
+    let got = rt.block_on(async move {
+        let mut pull = zeromq::PullSocket::new();
+        let ep = pull.bind("tcp://127.0.0.1:0").await.expect("bind");
+        tokio::spawn(async move {
+            let mut push = zeromq::PushSocket::new();
+            push.connect(&ep.to_string()).await.expect("connect");
+            let payload = vec![7u8; 20_000];
+            for _ in 0..n {
+                if push.send(zeromq::ZmqMessage::from(payload.clone())).await.is_err() {
+                    break;
+                }
+            }
+            tokio::time::sleep(std::time::Duration::from_secs(30)).await;
+        });
+        // let data pile up so that every read finds some
+        tokio::time::sleep(std::time::Duration::from_millis(300)).await;
+        let mut got = 0usize;
+        for _ in 0..n {
+            if pull.recv().await.is_err() {
+                break;
+            }
+            got += 1;
+        }
+        got
+    });
+    println!("{}", got);
+    if got == n {
+        0
+    } else {
+        4
+    }
+}
+
 pub fn run(tier: Tier, replay: Option<String>) -> i32 {
     zvcore::world::install_panic_hook();
     let mut ck = Check::new("C06", tier, "model_checking");
@@ -10,6 +56,12 @@ pub fn run(tier: Tier, replay: Option<String>) -> i32 {
         let v: serde_json::Value = serde_json::from_str(&std::fs::read_to_string(&path).expect("read")).expect("json");
         if v["replay"]["engine"] == "E3" {
             return crate::c05::replay_socket(&v);
+        }
+        if v["replay"]["kind"] == "coop" {
+            let n = v["replay"]["n"].as_u64().unwrap_or(600).to_string();
+            let o = std::process::Command::new(std::env::current_exe().unwrap()).args(["c06-coop", &n]).output().expect("child");
+            println!("replay: c06-coop exited with {:?} ({})", o.status.code(), String::from_utf8_lossy(&o.stdout).trim());
+            return if o.status.code() == Some(0) { 0 } else { 1 };
         }
         return e2::replay_file(&v);
     }
@@ -21,13 +73,32 @@ pub fn run(tier: Tier, replay: Option<String>) -> i32 {
     // undelivered at quiescence while a recv is pending" (a lost wake-up through the real
     // FramedRead / pipe waker chain shows up as exactly that)
     crate::e3::run_jobs_into(&mut ck, crate::c05::socket_jobs(tier), false);
+    // real runtime: recv loop driven by block_on under sustained load (cooperative-yield path of real tokio I/O)
+    let n = tier.pick(600usize, 3000usize);
+    if let Ok(exe) = std::env::current_exe() {
+        match std::process::Command::new(exe).args(["c06-coop", &n.to_string()]).output() {
+            Ok(o) => {
+                ck.cov("real_runtime_block_on_recv_loop_messages", n as u64);
+                match o.status.code() {
+                    Some(0) => {}
+                    Some(3) => ck.finding(
+                        "livelock/recv-driven-by-block_on-under-load",
+                        format!("real tokio runtime: a PULL socket whose `loop {{ recv().await }}` is the main future of block_on, fed by a PUSH peer with {} back-to-back 20 kB messages, never handed control back to the executor (watchdog on an OS thread fired after 15 s; 100% CPU)", n),
+                        serde_json::json!({"engine":"E4","kind":"coop","n":n}),
+                    ),
+                    other => ck.machinery_error(format!("c06-coop child exited with {:?}: {}", other, String::from_utf8_lossy(&o.stdout))),
+                }
+            }
+            Err(e) => ck.machinery_error(format!("cannot run c06-coop child: {}", e)),
+        }
+    }
     ck.findings.retain(|f| f.replay["engine"] != "E3" || f.class == "undelivered-at-quiescence" || f.class == "spin");
     let st = ck.coverage.get("states").and_then(|v| v.as_u64()).unwrap_or(0);
     let tr = ck.coverage.get("transitions").and_then(|v| v.as_u64()).unwrap_or(0);
     let tr = tr + ck.coverage.get("e3_executions").and_then(|v| v.as_u64()).unwrap_or(0);
     ck.cov("traces_validated_against_impl", tr + ck.coverage.get("e2_liveness_drain_checks").and_then(|v| v.as_u64()).unwrap_or(0));
     ck.cov("exhaustive", ck.coverage.get("e2_all_fixpoints").and_then(|v| v.as_bool()).unwrap_or(false));
-    ck.cov("explanation", format!("breadth-first search over event histories {{Insert i, Arrive i, Fire i (a registered stream waker runs), Close i, Remove i, Poll, Poll with 1 (thorough: 2) event(s) executed re-entrantly inside the checked-out stream's poll — before/after its body or right after the Pending re-insert}} of the REAL FairQueue with scripted streams; every transition replays the history on a fresh queue ({} states, {} transitions). On every state: no-lost-wake-up invariant (parked un-woken receiver + stored stream with an item or end-of-stream => a wake for it is pending; the receiver's waker is published) and a liveness oracle (fire all due wakes, poll whenever woken, until nothing changes: every stored stream must be drained). Fairness configurations (busy stream pre-loaded with 2(n-1)+3 items) bound the number of deliveries to other streams while a stream is ready by 2(n-1); the maximum observed is reported per configuration.", st, tr));
+    ck.cov("explanation", format!("breadth-first search over event histories {{Insert i, Arrive i, Fire i (a registered stream waker runs), Close i, Remove i, Poll, PollX (a poll during which every polled stream yields cooperatively: wakes its own waker and returns Pending), Poll with 1 (thorough: 2) event(s) executed re-entrantly inside the checked-out stream's poll — before/after its body or right after the Pending re-insert}} of the REAL FairQueue with scripted streams; every transition replays the history on a fresh queue ({} states, {} transitions). On every state: no-lost-wake-up invariant (parked un-woken receiver + stored stream with an item or end-of-stream => a wake for it is pending; the receiver's waker is published) and a liveness oracle (fire all due wakes, poll whenever woken, until nothing changes: every stored stream must be drained). Fairness configurations (busy stream pre-loaded with 2(n-1)+3 items) bound the number of deliveries to other streams while a stream is ready by 2(n-1); the maximum observed is reported per configuration. Additionally one run on the REAL tokio runtime: a PULL recv loop driven by block_on under sustained load (tokio's cooperative-yield path) must receive everything.", st, tr));
     ck.assume("tickets are only ever compared, so states that differ only in absolute ticket values are merged (rank normalisation)");
     ck.assume("parking_lot::Mutex, BinaryHeap, HashMap are trusted; memory orderings are not explored");
     ck.conclude()
